@@ -1,6 +1,7 @@
 /-
   C15: the table-version ladder (CalculateSilfVersion / VersionForTable) with constants regenerated from the source,
-  and the theorems that the version written is one whose layout supports what the font contains.
+  (definitions and the lemmas that do not depend on the extracted numbers; the theorems that do are in VersionThm.lean,
+  so that a change of a threshold in the source breaks only C15's obligations and not the driver).
   Core Lean only.
 -/
 import GrcVerif.Generated.Tables
@@ -32,39 +33,8 @@ theorem version_ge_requested (req : Nat) (c k p : Bool) (sp : Nat) : req ≤ cal
   unfold calcSilfVersion
   exact Nat.le_trans (Nat.le_trans (Nat.le_trans (bump_ge _ _ _) (bump_ge _ _ _)) (bump_ge _ _ _)) (bump_ge _ _ _)
 
-/-- The declared version supports every feature the table uses (for every request, every size). -/
-theorem declared_version_conforms (req : Nat) (c k p : Bool) (sp : Nat) :
-    (c = true → fmtCompress ≤ calcSilfVersion req c k p sp) ∧ (k = true → fmtCollision ≤ calcSilfVersion req c k p sp) ∧
-    (p = true → fmtSkipPasses ≤ calcSilfVersion req c k p sp) ∧
-    (sp > 0xFFFF → fmtLongClassOffsets ≤ calcSilfVersion req c k p sp) := by
-  unfold calcSilfVersion
-  refine ⟨?_, ?_, ?_, ?_⟩
-  · intro h
-    have h1 : fmtCompress ≤ bump c silfCompress req := by
-      have := bump_reach c silfCompress req h; simpa [fmtCompress, silfCompress] using this
-    exact Nat.le_trans (Nat.le_trans (Nat.le_trans h1 (bump_ge _ _ _)) (bump_ge _ _ _)) (bump_ge _ _ _)
-  · intro h
-    have h1 := bump_reach k silfCollision (bump c silfCompress req) h
-    have h1' : fmtCollision ≤ bump k silfCollision (bump c silfCompress req) := by simpa [fmtCollision, silfCollision] using h1
-    exact Nat.le_trans (Nat.le_trans h1' (bump_ge _ _ _)) (bump_ge _ _ _)
-  · intro h
-    have h1 := bump_reach p silfPassOpt (bump k silfCollision (bump c silfCompress req)) h
-    have h1' : fmtSkipPasses ≤ bump p silfPassOpt (bump k silfCollision (bump c silfCompress req)) := by simpa [fmtSkipPasses, silfPassOpt] using h1
-    exact Nat.le_trans h1' (bump_ge _ _ _)
-  · intro h
-    have hd : decide (sp > silfOffsetLimit) = true := by simp [silfOffsetLimit]; omega
-    have h1 := bump_reach (decide (sp > silfOffsetLimit)) silfLongOffsets (bump p silfPassOpt (bump k silfCollision (bump c silfCompress req))) hd
-    simpa [fmtLongClassOffsets, silfLongOffsets] using h1
-
 /-- Glat / Gloc versions as chosen by VersionForTable from the requested Silf version. -/
 def glatVersionFor (spec : Nat) : Nat := if spec ≥ glatThreshold then glatNew else glatOld
 def glocVersionFor (spec : Nat) : Nat := if spec ≥ glocThreshold then glocNew else glocOld
-
-/-- The two tables switch to their new formats at the same requested version. -/
-theorem glat_gloc_switch_together (spec : Nat) :
-    (glatVersionFor spec = glatNew ↔ glocVersionFor spec = glocNew) := by
-  unfold glatVersionFor glocVersionFor
-  simp only [glatThreshold, glocThreshold, glatNew, glatOld, glocNew, glocOld]
-  by_cases h : spec ≥ 262145 <;> simp [h]
 
 end Grc.Ver
